@@ -20,13 +20,16 @@ HARNESS = {"source": "x_pcb.c", "leak_clean": True}
 RULE = ("well-formed CIF 2.0 documents (<= 3 blocks, one level of save frames, scalar items, loops <= 3 names x <= 3 "
         "packets, values incl. nested lists/tables, text fields, triple-quoted strings, comments) rendered with random "
         "layout x every handler program deviating from CONTINUE at <= 1 handler invocation (quick) / <= 2 (thorough) with "
-        "responses {-1,-2,-3,7,1}, random programs beyond, each in storing and syntax-only mode; non-trivial = a deviation "
+        "responses {-1,-2,-3,7,1} and a spread of other return values (1, 2, 33, 36, 43, 104, 134, 100000, -4, -5) at every "
+        "handler invocation, random programs beyond, each in storing and syntax-only mode; non-trivial = a deviation "
         "is reached; plus targeted programs bypassing loops from inside (loop_start SKIP_CURRENT, packet_start/packet_end "
         "SKIP_SIBLINGS, item SKIP_SIBLINGS in a non-last packet, all packets of a loop bypassed); oracle (implementation "
         "only): C15 restated over log + final CIF, strict on loop_end / packet_end / later packets / stored packets")
 
 CONT, SKIP_CUR, SKIP_SIB, END = 0, -1, -2, -3
 RESPS = [-1, -2, -3, 7, 1]
+# a spread of non-navigation return values (see tools/gen/walk.py); 1000 / 1001 are avoided (internal codes of the model)
+CODES = [1, 2, 33, 36, 43, 104, 134, 100000, -4, -5]
 
 
 def ustr(s):
@@ -591,10 +594,12 @@ class Sim:
         r = self.prog.get(self.h, CONT)
         self.k += 1
         self.h += 1
-        if r > 0:
-            raise Stop(r)
         if r == END:
             raise Stop(0)
+        if r not in (CONT, SKIP_CUR, SKIP_SIB):
+            # any other return value ends the parse at once, no further callback; cif_parse returns it if it is positive
+            # (negative values are navigation-like and map to CIF_OK)
+            raise Stop(r if r > 0 else 0)
         return r
 
     def opt_end(self, ev, optional):
@@ -988,11 +993,15 @@ def generate(seed, tier):
     for i in range(6 if quick else 50):
         docs.append((rand_doc(r, big if i % 2 == 0 else small), "rand"))
     # 1. all continue + every single deviation
-    for doc, layout in docs:
+    for di, (doc, layout) in enumerate(docs):
         n = handler_count(doc)
         yield request(doc, r, layout, {})
         for k in range(n):
             for resp in RESPS:
+                yield request(doc, r, layout, {k: resp})
+            # the spread of other return values: all of them at every handler invocation of the first document, two per
+            # invocation (rotating) on the others
+            for resp in (CODES if di == 0 else [CODES[(k + di) % len(CODES)], CODES[(k + di + 5) % len(CODES)]]):
                 yield request(doc, r, layout, {k: resp})
     # 1b. loops bypassed from inside while their container is not skipped (loop_start SKIP_CURRENT; packet_start /
     #     packet_end SKIP_SIBLINGS; item SKIP_SIBLINGS in a packet that is not the last; all packets of a loop bypassed)
@@ -1026,5 +1035,5 @@ def generate(seed, tier):
         n = handler_count(doc)
         prog = {}
         for _ in range(r.randint(0, 5)):
-            prog[r.randrange(n)] = r.choice([-1, -1, -2, -2, -3, 7, 1])
+            prog[r.randrange(n)] = r.choice([-1, -1, -2, -2, -3, 7] + CODES)
         yield request(doc, r, "rand", prog)
